@@ -651,7 +651,8 @@ func whitespaceRuleSSA(r *Run, rule string) {
 					for _, side := range []ssa.Value{bo.X, bo.Y} {
 						if c, ok := p.resolve(side).(*ssa.Call); ok {
 							if bi, ok := c.Call.Value.(*ssa.Builtin); ok && bi.Name() == "len" {
-								if (bo.Op == token.GEQ && d.truth) || (bo.Op == token.LSS && !d.truth) || (bo.Op == token.GTR && d.truth) || (bo.Op == token.LEQ && !d.truth) {
+								if (bo.Op == token.GEQ && d.truth) || (bo.Op == token.LSS && !d.truth) || (bo.Op == token.GTR && d.truth) || (bo.Op == token.LEQ && !d.truth) ||
+									(bo.Op == token.EQL && d.truth) || (bo.Op == token.NEQ && !d.truth) {
 									atEnd = true
 								}
 							}
@@ -1220,6 +1221,23 @@ func stringScannerRuleSSA(r *Run, rule string) {
 					}
 					layers++
 					v = p.resolve(inner)
+				}
+				// "nothing to un-escape": the text was found not to contain \" at all - returning it as it is IS the
+				// un-escaped text (the fast path in front of strings.ReplaceAll)
+				if q == '"' && layers == outerUnescapes && okForm && isInputSlice(v) {
+					for _, d := range p.decisions {
+						c, isCall := p.resolve(d.cond).(*ssa.Call)
+						if !isCall || d.truth || len(c.Call.Args) != 2 {
+							continue
+						}
+						if pkg, fname := staticCalleeName(c); pkg != "strings" || fname != "Contains" {
+							continue
+						}
+						sub, isC := p.constOf(c.Call.Args[1])
+						if isC && sub.Kind() == constant.String && constant.StringVal(sub) == "\\\"" && p.resolve(c.Call.Args[0]) == p.resolve(v) {
+							layers++
+						}
+					}
 				}
 				switch {
 				case !okForm || !isInputSlice(v):
